@@ -52,6 +52,8 @@ STORAGES = {
     'bm3': ('pair (big_map int string) (pair (big_map int string) (big_map int string))',
             ['(Pair {} (Pair {} {}))', '(Pair { Elt 1 "x" } (Pair {} { Elt 2 "y" }))', '(Pair 5 (Pair 6 {}))'], 3),
     'int': ('int', ['0', '5'], 0),
+    # big_maps nested in a container value (legal Michelson: map values may be big_maps)
+    'map_bm': ('map string (big_map int string)', ['{ Elt "a" {} }', '{ Elt "a" { Elt 1 "x" } ; Elt "b" {} }', '{ Elt "a" 5 ; Elt "b" { Elt 2 "y" } }'], 2),
     # a big_map passed in the parameter is registered as a copy of an on-chain big_map
     'pbm': ('big_map int string', ['{}', '5', '{ Elt 2 "s" }'], 1),
 }
@@ -119,7 +121,7 @@ def bm_op(rng, tag):
 
 def good_session(rng, tier):
     """A list of cells (each a list of instruction strings) designed to succeed."""
-    shape = rng.choice(['bm', 'bm', 'bm_bm', 'bm_bm', 'bm_int', 'bm3', 'int', 'pbm', 'pbm'])
+    shape = rng.choice(['bm', 'bm', 'bm_bm', 'bm_bm', 'bm_int', 'bm3', 'int', 'pbm', 'pbm', 'map_bm', 'map_bm'])
     ty, lits, nbm = STORAGES[shape]
     pty, plits = PARAMS.get(shape, ('unit', ['Unit']))
     cells = [[f'parameter ({pty}) ; storage ({ty}) ; {CODE}']]
@@ -149,6 +151,13 @@ def good_session(rng, tier):
                 for _ in range(rng.randint(0, 3)):
                     body.append(bm_op(rng, tag))
                 body.append(['PAIR'])
+            elif shape == 'map_bm':
+                body.append(['EMPTY_MAP string (big_map int string)'])
+                for name in ('a', 'b')[: rng.randint(1, 2)]:
+                    body.append(['EMPTY_BIG_MAP int string'])
+                    for _ in range(rng.randint(0, 2)):
+                        body.append(bm_op(rng, tag))
+                    body.append(['SOME', f'PUSH string "{name}"', 'UPDATE'])
             elif shape == 'bm3':
                 for i in range(3):
                     body.append(['EMPTY_BIG_MAP int string'])
@@ -180,6 +189,12 @@ def good_session(rng, tier):
                     body.append(bm_op(rng, tag))
                 body.append(['DIP { UNPAIR ; ' + ' ; '.join(bm_op(rng, tag)) + ' ; PAIR }'])
                 body.append(['PAIR'])
+            elif shape == 'map_bm':
+                for _ in range(rng.randint(0, 2)):
+                    body.append(['DUP', 'PUSH string "a"', 'GET', 'ASSERT_SOME'])
+                    for _ in range(rng.randint(0, 2)):
+                        body.append(bm_op(rng, tag))
+                    body.append(['SOME', 'PUSH string "a"', 'UPDATE'])
             elif shape == 'int':
                 body.append(['PUSH int 1', 'ADD'])
         body.append(['NIL operation', 'PAIR'])
